@@ -388,12 +388,9 @@ func (rn *Runner) hang(at string) {
 func timed(fn func()) bool {
 	done := make(chan struct{})
 	go func() { fn(); close(done) }()
-	select {
-	case <-done:
-		return true
-	case <-time.After(limit):
-		return false
-	}
+	// slow is not hung: past the limit the call counts as hung only when a goroutine is parked inside the client package
+	_, ok, _ := ribdrv.AwaitOrHang(done, limit, "gribigo/client")
+	return ok
 }
 
 // Step executes one input.
